@@ -241,8 +241,26 @@ RelC07(f, eb, e) ==
            /\ e.name \in ExactC07 => a = b
            /\ (a = "ok" /\ b = "ok") => QRanges(f, eb, e, FALSE) = QRanges(f, eb, e, TRUE)
 
+\* ---- where the properties are silent: more than one section of a kind ----------------------------
+\* The gABI allows at most one symtab / dynsym / .dynamic / hash / version section.  With several (only reachable
+\* through corruption) the code's choice (first for the targeted accessors, last for find_common_data, "last
+\* before all three were seen" for the version sections) is an implementation detail no listed property fixes,
+\* so the answers to the affected queries are not judged.
+RECURSIVE CountShType(_, _, _, _)
+CountShType(f, eb, tw, i) == IF i >= NSh(eb) THEN 0 ELSE (IF ShdrAt(f, eb, i)["sh_type"] = tw THEN 1 ELSE 0) + CountShType(f, eb, tw, i + 1)
+Dup(f, eb, types) == \E tw \in types : CountShType(f, eb, tw, 0) > 1
+Unjudged(f, eb, e) ==
+    LET n == e.name IN
+    CASE n = "symbol_table" -> Dup(f, eb, {W4(SHT_SYMTAB)})
+      [] n = "dynamic_symbol_table" -> Dup(f, eb, {W4(SHT_DYNSYM)})
+      [] n = "dynamic" -> Dup(f, eb, {W4(SHT_DYNAMIC)})
+      [] n = "symbol_version_table" -> Dup(f, eb, {W_VERSYM, W_VERNEED, W_VERDEF})
+      [] n = "find_common_data" -> Dup(f, eb, {W4(SHT_SYMTAB), W4(SHT_DYNSYM), W4(SHT_DYNAMIC), W4(SHT_HASH), W_GNU_HASH})
+      [] OTHER -> FALSE
+
 \* does recorded query event e (result e.res) agree with the semantics on file f / handle eb?
 QueryOk(f, eb, e, stream) ==
+    Unjudged(f, eb, e) \/
     LET o == QOut(f, eb, e, stream)
     IN /\ e.res.out = o
        /\ o = "err" => (QErrKind(f, eb, e, stream) = "any" \/ e.res.kind = QErrKind(f, eb, e, stream))
